@@ -162,9 +162,10 @@ def _find_search_optimizations(filters):
                 prohibited_types.add(filter_.value)
 
         elif filter_.property == "id":
-            if filter_.op == "=":
+            if filter_.op == "=" and isinstance(filter_.value, str):
                 # An "allow" ID filter implies a type filter too, since IDs
-                # contain types within them.
+                # contain types within them.  (Any other kind of value is
+                # left to the per-object check: no ID is equal to it.)
                 allowed_ids = _update_allow(allowed_ids, filter_.value)
                 allowed_types = _update_allow(
                     allowed_types,
